@@ -31,13 +31,30 @@ def polyChunksLimb (key : Bytes) (cs : List Bytes) : Bytes :=
   if cs.foldl (fun n c => n + c.length) 0 ≤ 1024 then Poly1305Donna.macChunks key cs
   else polyChunks key cs
 
-def b2Chunks (outlen : Nat) (key salt personal : Bytes) (cs : List Bytes) : String :=
+def b2ChunksWith (F : Blake2b.State → Bytes → Nat → Bool → Blake2b.State) (outlen : Nat)
+    (key salt personal : Bytes) (cs : List Bytes) : String :=
   if outlen = 0 ∨ outlen > 64 ∨ key.length > 64 then "-1" else
-  let s0 := b2Init C04Ref.blake2bF Blake2b.paramInit outlen key salt personal
-  let s := cs.foldl (fun s c => b2Update C04Ref.blake2bF (c.length + 1) s c) s0
-  match b2Final C04Ref.blake2bF Blake2b.digest s outlen with
+  let s0 := b2Init F Blake2b.paramInit outlen key salt personal
+  let s := cs.foldl (fun s c => b2Update F (c.length + 1) s c) s0
+  match b2Final F Blake2b.digest s outlen with
   | .err => "-1"
   | .ok o => s!"0 {toHex o}"
+
+/-- self-cross-check: the reference-structured model (`blake2b_compress_ref`) and the three
+    SIMD-structured models (`blake2b_compress_avx2`, `_ssse3`, `_sse41`) must give the same line -/
+def crossCheck (r : String) (others : List String) : String :=
+  if others.all (· == r) then r else "MODEL-DISAGREE"
+
+/-- every BLAKE2b operation is run through the reference-structured model AND the AVX2-structured
+    model (the implementation the library picks on an AVX2 host); inputs up to 4096 bytes are also run
+    through the SSSE3- and SSE4.1-structured models (the cap only bounds the driver's run time). -/
+def b2Chunks (outlen : Nat) (key salt personal : Bytes) (cs : List Bytes) : String :=
+  crossCheck (b2ChunksWith C04Ref.blake2bF outlen key salt personal cs)
+    (b2ChunksWith C04Ref.blake2bF_avx2 outlen key salt personal cs ::
+      (if cs.foldl (fun n c => n + c.length) 0 ≤ 4096 then
+        [b2ChunksWith C04Ref.blake2bF_ssse3 outlen key salt personal cs,
+         b2ChunksWith C04Ref.blake2bF_sse41 outlen key salt personal cs]
+       else []))
 
 def hexList (l : List String) : Option (List Bytes) := l.mapM ofHex
 
@@ -79,7 +96,10 @@ def handle (op : String) (args : List String) : Option String :=
   | "kdf.blake2b", [n, id, ctx, key] => do
     let id ← parseNat? id
     if id ≥ 2 ^ 64 then some badArgs else
-    some (hres (kdfBlake2b C04Ref.blake2bF Blake2b.paramInit Blake2b.digest (← parseNat? n) (UInt64.ofNat id) (← ofHex ctx) (← ofHex key)))
+    let n ← parseNat? n; let ctx ← ofHex ctx; let key ← ofHex key
+    let run (F : Blake2b.State → Bytes → Nat → Bool → Blake2b.State) : String :=
+      hres (kdfBlake2b F Blake2b.paramInit Blake2b.digest n (UInt64.ofNat id) ctx key)
+    some (crossCheck (run C04Ref.blake2bF) [run C04Ref.blake2bF_avx2, run C04Ref.blake2bF_ssse3, run C04Ref.blake2bF_sse41])
   | _, _ => none
 
 end Sodium.Driver.C04
